@@ -419,6 +419,31 @@ func (w *Worker) RunValidateDefaults(sk *Skeleton, property string, ndefaults in
 		}
 		return VNil, ""
 	}
+	// concrete oracle: each default against its own subschema
+	oracleWant := func(vals []any) (want bool, doc string, err error) {
+		want = true
+		doc = sk.Doc
+		for i, v := range vals {
+			b, _ := json.Marshal(v)
+			doc = replaceOnce(doc, fmt.Sprintf(`"@D%d"`, i), string(b))
+		}
+		rr2, rerr := refsem.NewResolver([]byte(doc), sk.BaseURI, nil, sk.Draft)
+		if rerr != nil {
+			return false, doc, rerr
+		}
+		m2 := sx.NewMachine(m.P, smt.NewCtx(), nil)
+		o2 := refsem.NewOracle(m2, rr2)
+		for _, loc := range rr2.RootDoc.AllLocs() {
+			if mm, ok := loc.V.(map[string]any); ok {
+				if d, has := mm["default"]; has {
+					if t := o2.Eval(loc, refsem.ConstInst{M: m2, V: d}, nil).OK; !t.IsTrue() {
+						want = false
+					}
+				}
+			}
+		}
+		return want, doc, nil
+	}
 	npath := 0
 	m.Explore(func(m *sx.Machine) sx.Value {
 		ers := ImportResolved(m, rs, true)
@@ -461,7 +486,17 @@ func (w *Worker) RunValidateDefaults(sk *Skeleton, property string, ndefaults in
 			if vals, err := concretize(); err == nil {
 				nv, _ := nativeRun(vals)
 				if nv != v {
-					res.EngineErrors = append(res.EngineErrors, fmt.Sprintf("path validation: engine=%s native=%s defaults=%s", v, nv, canonicalJSON(vals)))
+					// the engine runs validateDefaults itself; natively it is reached through Resolve. If the
+					// native outcome also contradicts the specification, Resolve does not validate these
+					// defaults as it should: a violation shown by the native run.
+					if want, doc, err := oracleWant(vals); err == nil && nv != VPanic && (nv == VNil) != want {
+						if len(res.Findings) < 3 {
+							res.Findings = append(res.Findings, Finding{Property: property, Kind: "validate-defaults-mismatch", Skeleton: sk.Name, Family: sk.Family, Doc: doc, Draft: sk.Draft, Instance: canonicalJSON(vals), GoValue: DescribeGo(vals),
+								Expected: map[bool]string{true: "Resolve(ValidateDefaults) succeeds", false: "Resolve(ValidateDefaults) fails"}[want], Observed: nv.String() + " (validateDefaults itself, run in the engine, gives " + v.String() + ")"})
+						}
+					} else {
+						res.EngineErrors = append(res.EngineErrors, fmt.Sprintf("path validation: engine=%s native=%s defaults=%s", v, nv, canonicalJSON(vals)))
+					}
 				} else {
 					res.Validated++
 					if res.Sample == nil {
